@@ -409,7 +409,11 @@ func (w *W) c11Program(k int, emit func(blob, dump []byte)) {
 					bad[len(bad)/3+r.Intn(len(bad)-len(bad)/3)] ^= byte(1 + r.Intn(255))
 				}
 			}
-			if r.Bool() {
+			if !damageAllocatable(blob, bad) {
+				// the damage hit a size varint or a zstd frame header: the call would allocate what
+				// the header now declares (outside the statement, as in C19)
+				w.Count("damaged_blobs_declaring_huge_sizes_skipped", 1)
+			} else if r.Bool() {
 				walk.Guard(func() error { B.Deserialize(bad, dsts[di]); return nil })
 				trace = append(trace, "deser(damaged)")
 			} else {
